@@ -69,7 +69,8 @@ LayoutOK(t, b, cap) ==
   LET p == Parsed(t, b) IN
   /\ p.present
   /\ BLe(p.prod, FromNat(cap))
-  /\ Kind(t) = "vec" => BLe(p.size, p.maxsize)
+  \* limb count within capacity, and the capacity itself backed by the buffer (set_size(max_size) is a safe call)
+  /\ Kind(t) = "vec" => (BLe(p.size, p.maxsize) /\ BLe(p.capprod, FromNat(cap)))
 
 \* same metadata: every header byte equal, except (vec) that a stored capacity may be clamped
 SameMeta(t, a, b) ==
